@@ -39,7 +39,15 @@ func Load(repoDir, rootMod string, overlay map[string][]byte) (*Program, error) 
 		return nil, fmt.Errorf("BUILD-FAILED: %s", strings.Join(errs, "\n"))
 	}
 	prog, spkgs := ssautil.AllPackages(pkgs, ssa.BuilderMode(0))
-	prog.Build()
+	// build function bodies only where they are interpreted: the code under test and the
+	// few pure stdlib packages run from their own SSA; everything else is reached
+	// through intrinsics
+	for _, sp := range prog.AllPackages() {
+		path := sp.Pkg.Path()
+		if strings.HasPrefix(path, rootMod) || interpretablePkgs[path] {
+			sp.Build()
+		}
+	}
 	p := &Program{Prog: prog, MainPkg: map[string]*ssa.Package{}, RootMod: rootMod, Known: map[string]bool{}}
 	for i, sp := range spkgs {
 		if sp == nil {
@@ -51,3 +59,5 @@ func Load(repoDir, rootMod string, overlay map[string][]byte) (*Program, error) 
 	sort.Strings(p.PkgOrder)
 	return p, nil
 }
+
+var interpretablePkgs = map[string]bool{"sort": true, "errors": true, "math/bits": true, "internal/reflectlite": true, "slices": true, "cmp": true}
